@@ -31,14 +31,25 @@ def rolePay : Nat := 2
 def roleDelay : Nat := 3
 def roleHtlc : Nat := 4
 
+/-- What a signature commits to.
+    `final`: made over the very transaction being validated (our own sweep signatures);
+    `presigned l s`: made earlier, over the one-input / one-output form of the
+      spending transaction with nLockTime `l` and input sequence `s` (the peer's
+      second-level HTLC signatures);
+    `other`: made over some other transaction. -/
+inductive SigOver where
+  | final
+  | presigned (lockTime sequence : Nat)
+  | other
+deriving DecidableEq, Repr, Inhabited
+
 /-- Stack items. -/
 inductive Item where
   /-- a script number in minimal encoding; `num 0` is the empty vector, `num 1` the byte 0x01 -/
   | num (n : Nat)
   | key (k : Key)
-  /-- signature by `k` with sighash flag `hashType`; `fresh` = it commits to the
-      spending transaction being validated -/
-  | sig (k : Key) (hashType : Nat) (fresh : Bool)
+  /-- signature by `k` with sighash flag `hashType` over `over` -/
+  | sig (k : Key) (hashType : Nat) (over : SigOver)
   /-- a 32-byte payment preimage -/
   | pre (id : Nat)
   /-- HASH160 (RIPEMD160 ∘ SHA256) as an injective constructor -/
@@ -62,8 +73,16 @@ structure Ctx where
   version : Nat := 2
   sequence : Nat := 0
   lockTime : Nat := 0
-  /-- tapscript (BIP342) rules: OP_CHECKMULTISIG is disabled -/
+  /-- tapscript (BIP342) rules: OP_CHECKMULTISIG is disabled, SIGHASH_DEFAULT exists -/
   tapscript : Bool := false
+  /-- the transaction carries inputs and outputs beyond the pre-signed
+      input / output pair (the sweeper aggregates second-level HTLC spends) -/
+  aggregated : Bool := false
+  /-- height / median time of the block the transaction is to be included in,
+      and the number of blocks since the spent output confirmed (finality rules) -/
+  blockHeight : Nat := 0
+  blockTime : Nat := 0
+  inputAge : Nat := 0
 deriving Repr
 
 abbrev Stack := List Item   -- head = top of stack
@@ -82,36 +101,56 @@ def byteLen : Item → Nat
   | .h160 _ => 20
   | .bytes len _ => len
 
+def sigHashAll : Nat := 1
+def sigHashSingleAnyoneCanPay : Nat := 131     -- 0x83
+def sigHashDefault : Nat := 0
+
+/-- sighash flags the engine accepts (STRICTENC); SIGHASH_DEFAULT only in taproot -/
+def sigHashDefined (tap : Bool) (ht : Nat) : Bool :=
+  ht == 1 || ht == 2 || ht == 3 || ht == 129 || ht == 130 || ht == 131 || (tap && ht == 0)
+
+/-- Does a signature with flag `ht` made over `o` commit to the transaction at hand?
+    A pre-signed signature fixes nLockTime and the input's sequence, and survives
+    added inputs and outputs only with SIGHASH_SINGLE|ANYONECANPAY. -/
+def sigCommits (c : Ctx) (ht : Nat) : SigOver → Bool
+  | .final => true
+  | .presigned l s => c.lockTime == l && c.sequence == s && (!c.aggregated || ht == 131)
+  | .other => false
+
+def sigOk (c : Ctx) (ht : Nat) (o : SigOver) : Bool :=
+  sigHashDefined c.tapscript ht && sigCommits c ht o
+
 /-- Does signature item `sg` verify under public key item `pk`?
-    `none` = script error (bad encoding, or a failing non-empty signature: NULLFAIL). -/
-def sigCheck (pk sg : Item) : Option Bool :=
+    `none` = script error (bad encoding / undefined sighash flag, or a failing
+    non-empty signature: NULLFAIL). -/
+def sigCheck (c : Ctx) (pk sg : Item) : Option Bool :=
   match pk with
   | .key k =>
     match sg with
     | .num 0 => some false
-    | .sig k' _ fresh => if k' = k ∧ fresh = true then some true else none
+    | .sig k' ht o => if k' = k ∧ sigOk c ht o = true then some true else none
     | _ => none
   | _ => none
 
 /-- one signature against one key inside CHECKMULTISIG (a mismatch is not yet an error). -/
-def sigMatch (pk sg : Item) : Option Bool :=
+def sigMatch (c : Ctx) (pk sg : Item) : Option Bool :=
   match pk with
   | .key k =>
     match sg with
     | .num 0 => some false
-    | .sig k' _ fresh => some (decide (k' = k) && fresh)
+    | .sig k' ht o => some (decide (k' = k) && sigOk c ht o)
     | _ => none
   | _ => none
 
 /-- CHECKMULTISIG matching; both lists in stack order (top first). -/
-def msig : List Item → List Item → Option Bool
+def msig (c : Ctx) : List Item → List Item → Option Bool
   | [], _ => some true
   | _ :: _, [] => some false
   | s :: ss, k :: ks =>
-    match sigMatch k s with
+    match sigMatch c k s with
     | none => none
-    | some true => msig ss ks
-    | some false => msig (s :: ss) ks
+    | some true => msig c ss ks
+    | some false => msig c (s :: ss) ks
 termination_by _ keys => keys.length
 decreasing_by all_goals simp_wf <;> omega
 
@@ -208,24 +247,24 @@ def opHash160 (st : Stack) : Option Stack :=
   | x :: st => some (.h160 x :: st)
   | [] => none
 
-def opCheckSig (st : Stack) : Option Stack :=
+def opCheckSig (c : Ctx) (st : Stack) : Option Stack :=
   match st with
-  | pk :: sg :: st => (sigCheck pk sg).map fun b => .num (if b then 1 else 0) :: st
+  | pk :: sg :: st => (sigCheck c pk sg).map fun b => .num (if b then 1 else 0) :: st
   | _ => none
 
-def opCheckSigVerify (st : Stack) : Option Stack :=
+def opCheckSigVerify (c : Ctx) (st : Stack) : Option Stack :=
   match st with
-  | pk :: sg :: st => if sigCheck pk sg = some true then some st else none
+  | pk :: sg :: st => if sigCheck c pk sg = some true then some st else none
   | _ => none
 
 /-- after the key count `nk` has been popped -/
-def multiSigBody (nk : Nat) (st : Stack) : Option Stack :=
+def multiSigBody (c : Ctx) (nk : Nat) (st : Stack) : Option Stack :=
   match popN nk st with
   | some (keys, .num m :: st2) =>
     match popN m st2 with
     | some (sigs, dummy :: st3) =>
       if dummy ≠ .num 0 then none          -- NULLDUMMY
-      else match msig sigs keys with
+      else match msig c sigs keys with
         | some true => some (.num 1 :: st3)
         | some false =>
           -- NULLFAIL: a failing CHECKMULTISIG must have only empty signatures
@@ -237,7 +276,7 @@ def multiSigBody (nk : Nat) (st : Stack) : Option Stack :=
 def opCheckMultiSig (c : Ctx) (st : Stack) : Option Stack :=
   if c.tapscript then none else
   match st with
-  | .num nk :: st => multiSigBody nk st
+  | .num nk :: st => multiSigBody c nk st
   | _ => none
 
 def opCsv (c : Ctx) (st : Stack) : Option Stack :=
@@ -272,8 +311,8 @@ def exec (c : Ctx) (op : Op) (st : Stack) (cond : List Bool) : Option State :=
   | .equal => keep (opEqual st)
   | .equalVerify => keep (opEqualVerify st)
   | .hash160 => keep (opHash160 st)
-  | .checkSig => keep (opCheckSig st)
-  | .checkSigVerify => keep (opCheckSigVerify st)
+  | .checkSig => keep (opCheckSig c st)
+  | .checkSigVerify => keep (opCheckSigVerify c st)
   | .checkMultiSig => keep (opCheckMultiSig c st)
   | .csv => keep (opCsv c st)
   | .cltv => keep (opCltv c st)
@@ -313,6 +352,29 @@ def accepts : Option State → Bool
     stack first), without the script itself. -/
 def run (c : Ctx) (script : List Op) (witness : List Item) : Bool :=
   accepts (runOps c script { stack := witness.reverse, cond := [] })
+
+/-! ### finality of the spending transaction (consensus rules outside the script) -/
+
+/-- nLockTime: final if zero, if the (single) input's sequence is final, or if the
+    lock time lies strictly below the including block's height / time. -/
+def absFinal (c : Ctx) : Bool :=
+  c.lockTime == 0 || c.sequence == seqFinal ||
+  (if c.lockTime < lockThreshold then decide (c.lockTime < c.blockHeight)
+   else decide (c.lockTime < c.blockTime))
+
+/-- BIP68: with version ≥ 2 and the disable bit clear, a block-based sequence
+    demands that many blocks since the spent output confirmed (time-based relative
+    locks are not used by lnd and are treated as never mature). -/
+def relFinal (c : Ctx) : Bool :=
+  decide (c.version < 2) || decide (c.sequence / seqDisable % 2 = 1) ||
+  (decide (c.sequence / seqTypeFlag % 2 = 0) && decide (c.sequence % seqMask ≤ c.inputAge))
+
+/-- the transaction can be included in the block described by the context -/
+def includable (c : Ctx) : Bool := absFinal c && relFinal c
+
+/-- script validity and includability together -/
+def spendOk (c : Ctx) (script : List Op) (witness : List Item) : Bool :=
+  run c script witness && includable c
 
 /-! ### lnd's script templates (input/script_utils.go) -/
 
@@ -401,7 +463,7 @@ def tapReceiverTimeoutLeaf (final : Bool) (sender : Key) (cltvExpiry : Nat) : Li
 
 /-! ### witness stacks (input/script_utils.go witness generators) -/
 
-def sigAll (k : Key) : Item := .sig k 1 true
+def sigAll (k : Key) : Item := .sig k sigHashAll .final
 
 /-- `CommitSpendRevoke` / `HtlcSpendRevoke`: `<sig> 1`. -/
 def witRevoke (sg : Item) : List Item := [sg, .num 1]
